@@ -6,6 +6,8 @@
    Events:
      case{id,t,a,fmt}           new configuration: t = struct type under test (or "sample"/"scenario"), a = value class per field
      load{ok}                   MOSN accepted / refused the file
+     admin{endpoints,diff}      (cases with admin = TRUE) GET /api/v1/config_dump for every endpoint / parameter while the first
+                                life runs; diff = paths where the effective configuration differs from what it was before
      dump{n,ok,obs,diff,inherit_diff}
                                 n-th persisted document; obs[f] = observation of field f relative to the input value
                                 (absent | same | zero | other); diff = paths where document 2 differs from document 1
@@ -19,7 +21,7 @@ tvars == <<vars, l>>
 
 Typed == ty \in Types
 
-TraceInit == /\ l = 1 /\ ty = "none" /\ file = None /\ pc = "idle"
+TraceInit == /\ l = 1 /\ ty = "none" /\ file = None /\ pc = "idle" /\ admin = FALSE
              /\ eff1 = None /\ dump1 = None /\ eff2 = None /\ dump2 = None
 
 TCase == /\ IsEvent("case")
@@ -28,6 +30,7 @@ TCase == /\ IsEvent("case")
                     THEN [f \in FieldsOf[Ev.t] |-> IF f \in DOMAIN Ev.a THEN Ev.a[f] ELSE "unset"]
                     ELSE None
          /\ pc' = "file"
+         /\ admin' = (Has(Ev, "admin") /\ Ev.admin)
          /\ eff1' = None /\ dump1' = None /\ eff2' = None /\ dump2' = None
 
 TLoad == /\ IsEvent("load") /\ pc = "file"
@@ -39,7 +42,13 @@ TLoad == /\ IsEvent("load") /\ pc = "file"
                     ELSE TRUE
                  /\ eff1' = None
          /\ pc' = IF Ev.ok THEN "running" ELSE "rejected"
-         /\ UNCHANGED <<ty, file, dump1, eff2, dump2>>
+         /\ UNCHANGED <<ty, file, dump1, eff2, dump2, admin>>
+
+(* admin config dumps (every endpoint) requested while the first life runs: read-only *)
+TAdmin == /\ IsEvent("admin") /\ pc = "running"
+          /\ Expect(admin, "admin-dump:not-planned")
+          /\ Expect(Ev.diff = <<>>, "admin-dump:altered-effective-config")
+          /\ UNCHANGED vars
 
 ObsOK(tag) ==
   IF Typed /\ Has(Ev, "obs")
@@ -59,14 +68,14 @@ TDump1 == /\ IsEvent("dump") /\ Ev.n = 1 /\ pc = "running"
              ELSE TRUE
           /\ dump1' = IF Typed THEN Dump(ty, eff1) ELSE None
           /\ pc' = IF Ev.ok THEN "persisted" ELSE "failed"
-          /\ UNCHANGED <<ty, file, eff1, eff2, dump2>>
+          /\ UNCHANGED <<ty, file, eff1, eff2, dump2, admin>>
 
 TReload == /\ IsEvent("reload") /\ pc = "persisted"
            /\ Expect(Ev.ok, "reload:refused-own-dump")
            /\ IF Ev.ok THEN Expect(Ev.diff = <<>>, "reload:effective-config-differs") ELSE TRUE
            /\ eff2' = IF Typed THEN Eff(ty, dump1) ELSE None
            /\ pc' = IF Ev.ok THEN "restarted" ELSE "failed"
-           /\ UNCHANGED <<ty, file, eff1, dump1, dump2>>
+           /\ UNCHANGED <<ty, file, eff1, dump1, dump2, admin>>
 
 TDump2 == /\ IsEvent("dump") /\ Ev.n = 2 /\ pc = "restarted"
           /\ Expect(Ev.ok, "dump2:failed")
@@ -76,9 +85,9 @@ TDump2 == /\ IsEvent("dump") /\ Ev.n = 2 /\ pc = "restarted"
              ELSE TRUE
           /\ dump2' = IF Typed THEN Dump(ty, eff2) ELSE None
           /\ pc' = "done"
-          /\ UNCHANGED <<ty, file, eff1, dump1, eff2>>
+          /\ UNCHANGED <<ty, file, eff1, dump1, eff2, admin>>
 
-TraceNext == TCase \/ TLoad \/ TDump1 \/ TReload \/ TDump2
+TraceNext == TCase \/ TLoad \/ TAdmin \/ TDump1 \/ TReload \/ TDump2
 TraceSpec == TraceInit /\ [][TraceNext]_tvars
 
 (* the model's own guarantees, evaluated at every step of the recorded trace *)
